@@ -216,11 +216,19 @@ type world struct {
 	hash uint64
 
 	interesting bool
-	length      int  // target number of delivered events (<= 60)
-	synced      bool // the CURRENT master has written /storage/state at least once
+	staleAssign map[string][]byte  // assignment record that survived a drop the master handled (a defect): the next create is judged as a fresh creation
+	dropped     map[string]dropRec // what the master knew about a database when it handled its drop
+	recreate    bool               // the config event being handled (re-)creates a database over such a stale record
+	length      int                // target number of delivered events (<= 60)
+	synced      bool               // the CURRENT master has written /storage/state at least once
 	failovers   int
 	badPrev     map[string]bool // invariant breaks present after the previous event (reported once, at the event that introduced them)
 	badNow      map[string]bool
+}
+
+type dropRec struct {
+	shards, rf int
+	live       []int
 }
 
 // flag reports a broken invariant, classed by the event after which it FIRST shows in this history.
@@ -462,6 +470,13 @@ func (w *world) act() {
 		w.nodeUp(sh.Replicas[r.Intn(len(sh.Replicas))])
 	case p < 86: // save a database: create / grow / re-save / shrink
 		name := w.dbs[r.Intn(len(w.dbs))]
+		if r.Intn(2) == 0 { // prefer giving a dropped name a new life (same name, new shape, whatever nodes are alive now)
+			for _, d := range w.dbs {
+				if _, was := w.dropped[d]; was && w.repoCfg(d) == nil {
+					name = d
+				}
+			}
+		}
 		cfg := w.repoCfg(name)
 		if cfg == nil {
 			n := 1 + r.Intn(24)
@@ -491,15 +506,23 @@ func (w *world) act() {
 			w.saveCfg(cfg, "shrink")
 		}
 	case p < 91: // drop database as the broker's "drop database" does: config, then assignment
+		// (the second delete is redundant with the master's own DropDatabaseAssignment; half of the drops leave it to the master,
+		// as when the broker fails between its two deletes)
 		name := w.dbs[r.Intn(len(w.dbs))]
-		w.logf("world: drop database %s", name)
-		w.del(constants.GetDatabaseConfigPath(name))
-		w.del(constants.GetDatabaseAssignPath(name))
+		if r.Intn(2) == 0 {
+			w.logf("world: drop database %s (config and assignment record)", name)
+			w.del(constants.GetDatabaseConfigPath(name))
+			w.del(constants.GetDatabaseAssignPath(name))
+		} else {
+			w.logf("world: drop database %s (config only; the assignment record is the master's to remove)", name)
+			w.del(constants.GetDatabaseConfigPath(name))
+		}
 	case p < 95: // somebody writes an assignment by hand (contiguous shard ids, arbitrary nodes incl. dead / unknown)
 		name := w.dbs[r.Intn(len(w.dbs))]
 		if r.Intn(5) == 0 {
 			name = "orphan"
 		}
+		delete(w.staleAssign, name)
 		sa := models.NewShardAssignment(name)
 		univ := append(append([]int(nil), w.pool...), 777, 778)
 		k := 1 + r.Intn(6)
@@ -593,6 +616,9 @@ func (w *world) deliver(e qev) {
 	var cfg *models.Database
 	var before *models.ShardAssignment
 	var liveRepo []int
+	var knownDrop *dropRec
+	recordBeforeDrop := false
+	w.recreate = false
 	switch ev.Type {
 	case discovery.NodeStartup:
 		var n models.StatefulNode
@@ -613,9 +639,20 @@ func (w *world) deliver(e qev) {
 			evDB = c.Name
 			before = w.repoAssign(c.Name)
 			liveRepo = w.repoLive()
+			if stale, ok := w.staleAssign[c.Name]; ok {
+				if now, ok := w.repo.peek(constants.GetDatabaseAssignPath(c.Name)); ok && string(now) == string(stale) {
+					before, w.recreate = nil, true // the record belongs to the dropped database: this is a creation
+				}
+			}
 		}
 	case discovery.DatabaseConfigDeletion:
 		evDB = nameFromKey(ev.Key, constants.DatabaseConfigPath)
+		for _, d := range w.sm.GetDatabases() {
+			if d.Name == evDB {
+				knownDrop = &dropRec{shards: d.NumOfShard, rf: d.ReplicaFactor, live: w.repoLiveSorted()}
+			}
+		}
+		_, recordBeforeDrop = w.repo.peek(constants.GetDatabaseAssignPath(evDB))
 	case discovery.ShardAssignmentChanged:
 		sa := &models.ShardAssignment{}
 		if json.Unmarshal(ev.Value, sa) == nil {
@@ -654,6 +691,21 @@ func (w *world) deliver(e qev) {
 			res.count("shrink_requests_ended_in_recovered_panic", 1)
 		} else {
 			res.violation("C18/panic-in-event-handler/"+ev.Type.String(), "processEvent recovered a panic: "+panicked, wit)
+		}
+	}
+
+	// --- a drop the master handled leaves no assignment record of that database in the repository
+	if knownDrop != nil {
+		res.count("drops_handled_by_the_master", 1)
+		if recordBeforeDrop {
+			res.count("drops_where_the_master_had_to_remove_the_assignment_record", 1)
+		}
+		w.dropped[evDB] = *knownDrop
+		if rec, ok := w.repo.peek(constants.GetDatabaseAssignPath(evDB)); ok {
+			w.staleAssign[evDB] = rec
+			res.violation("C18/sm-drop-left-assignment-record", fmt.Sprintf("database %s was dropped but %s still holds %s", evDB, constants.GetDatabaseAssignPath(evDB), rec), wit)
+		} else {
+			delete(w.staleAssign, evDB)
 		}
 	}
 
@@ -729,23 +781,39 @@ func (w *world) checkCfgEvent(ev *discovery.Event, cfg *models.Database, before 
 	}
 	switch {
 	case before == nil:
+		cp := "C18/sm-create-"
+		if w.recreate {
+			cp = "C18/sm-recreate-" // judged as a creation although a record of the dropped database is still there
+		}
 		if n >= 1 && feasible {
 			if len(puts) == 0 {
-				res.violation("C18/sm-create-missing-assignment", fmt.Sprintf("no assignment written for %s with %d alive nodes", describe(ev), len(alive)), wit)
+				res.violation(cp+"missing-assignment", fmt.Sprintf("no assignment written for %s with %d alive nodes", describe(ev), len(alive)), wit)
 				return
 			}
 			res.count("assignments_created", 1)
+			if d, was := w.dropped[name]; was {
+				res.count("recreations_of_a_dropped_database", 1)
+				if d.shards != n || d.rf != rf {
+					res.count("recreations_with_other_shard_count_or_replica_factor", 1)
+				}
+				ls := append([]int(nil), liveRepo...)
+				sort.Ints(ls)
+				if !sameInts(ls, d.live) {
+					res.count("recreations_over_an_alive_set_changed_since_the_drop", 1)
+				}
+				delete(w.dropped, name)
+			}
 			if rf >= 2 && n > len(alive) {
 				res.count("assignments_created_with_wraparound_and_replicas", 1)
 			}
 			if after.Name != name {
-				res.violation("C18/sm-create-name", fmt.Sprintf("assignment for %s carries name %q", name, after.Name), wit)
+				res.violation(cp+"name", fmt.Sprintf("assignment for %s carries name %q", name, after.Name), wit)
 			}
-			report(checkShards(alive, after, 0, n, rf, rf), "C18/assign-", "C18/sm-create-")
+			report(checkShards(alive, after, 0, n, rf, rf), "C18/assign-", cp)
 		} else {
 			res.count("create_requests_infeasible", 1)
 			if len(puts) > 0 {
-				res.violation("C18/sm-create-infeasible-accepted", fmt.Sprintf("assignment written although shards=%d rf=%d alive=%d", n, rf, len(alive)), wit)
+				res.violation(cp+"infeasible-accepted", fmt.Sprintf("assignment written although shards=%d rf=%d alive=%d", n, rf, len(alive)), wit)
 			}
 		}
 	case len(before.Shards) < n:
@@ -1004,7 +1072,8 @@ func runHistory(c *core.Ctx, idx int, res *childResult, verbose bool) {
 	rnd := c.Rand(fmt.Sprintf("history-%d", idx))
 	rand.Seed(rnd.Int63()) //nolint:staticcheck // the state manager asks the global source for the random start
 	repo := newMemRepo()
-	w := &world{idx: idx, rnd: rnd, repo: repo, res: res, verbose: verbose, expLive: map[int]bool{}, dbs: []string{"db0", "db1", "db2"}}
+	w := &world{idx: idx, rnd: rnd, repo: repo, res: res, verbose: verbose, expLive: map[int]bool{}, dbs: []string{"db0", "db1", "db2"},
+		staleAssign: map[string][]byte{}, dropped: map[string]dropRec{}}
 	w.sm = master.NewStateManager(context.Background(), repo, nil)
 	defer func() { w.sm.Close() }()
 	w.prev = takeSnap(w.sm.GetStorageState())
